@@ -744,7 +744,9 @@ macro_rules! map {
                                 FromMeta::from_meta(inner).map_err(|e| e.at_path(&path)),
                             ))
                         }
-                        NestedMeta::Lit(_) => Err(Error::unsupported_format("expression")),
+                        NestedMeta::Lit(ref lit) => {
+                            Err(Error::unsupported_format("expression").with_span(lit))
+                        }
                     }
                 });
 
